@@ -22,6 +22,7 @@
 #include <limits>
 #include <optional>
 #include <sstream>
+#include <stdexcept>
 #include <unordered_map>
 #include <unordered_set>
 #include <utility>
@@ -1999,9 +2000,24 @@ namespace bloch::runtime {
         }
         if (auto lit = dynamic_cast<LiteralExpression*>(e)) {
             Value v;
+            // std::sto* report malformed/oversized text with std:: exceptions; turn those into
+            // a located runtime diagnostic instead of leaking the raw what() text.
+            auto convert = [&](const char* kind, auto&& parse) {
+                try {
+                    return parse();
+                } catch (const std::out_of_range&) {
+                    throw BlochError(
+                        ErrorCategory::Runtime, lit->line, lit->column,
+                        std::string(kind) + " literal '" + lit->value + "' is out of range");
+                } catch (const std::invalid_argument&) {
+                    throw BlochError(
+                        ErrorCategory::Runtime, lit->line, lit->column,
+                        "invalid " + std::string(kind) + " literal '" + lit->value + "'");
+                }
+            };
             if (lit->literalType == "bit") {
                 v.type = Value::Type::Bit;
-                v.bitValue = std::stoi(lit->value);
+                v.bitValue = convert("bit", [&] { return std::stoi(lit->value); });
             } else if (lit->literalType == "boolean") {
                 v.type = Value::Type::Boolean;
                 v.boolValue = (lit->value == "true");
@@ -2010,14 +2026,10 @@ namespace bloch::runtime {
                 std::string text = lit->value;
                 if (!text.empty() && (text.back() == 'L' || text.back() == 'l'))
                     text.pop_back();
-                try {
-                    v.longValue = std::stoll(text);
-                } catch (...) {
-                    v.longValue = 0;
-                }
+                v.longValue = convert("long", [&] { return std::stoll(text); });
             } else if (lit->literalType == "float") {
                 v.type = Value::Type::Float;
-                v.floatValue = std::stof(lit->value);
+                v.floatValue = convert("float", [&] { return std::stof(lit->value); });
             } else if (lit->literalType == "string") {
                 v.type = Value::Type::String;
                 if (lit->value.size() >= 2)
@@ -2032,7 +2044,7 @@ namespace bloch::runtime {
                     v.charValue = '\0';
             } else {
                 v.type = Value::Type::Int;
-                v.intValue = std::stoi(lit->value);
+                v.intValue = convert("int", [&] { return std::stoi(lit->value); });
             }
             return v;
         } else if (auto paren = dynamic_cast<ParenthesizedExpression*>(e)) {
